@@ -50,12 +50,13 @@ def main():
         T = {t['str']: i for i, t in enumerate(prog['types']) if t}
         srv_t = prog['types'][prog['types'][T['net/http.Server']]['under']] if prog['types'][T['net/http.Server']]['kind'] == 'named' else prog['types'][T['net/http.Server']]
         fidx = {f['name']: i for i, f in enumerate(srv_t['fields'])}
-        servers = {}
+        servers, deadlines = {}, {}
         for ev in st.events:
             if ev[0] == 'cev' and ev[2] == 'las':
                 sid = ev[3]
                 sv = st.heap[sid[1]]
                 servers[lit(sv.f[fidx['Addr']])] = sv.f[fidx['Handler']]
+                deadlines[lit(sv.f[fidx['Addr']])] = {k: z3.simplify(sv.f[fidx[k]]) for k in ('ReadTimeout', 'WriteTimeout') if k in fidx}
         handles = [ev for ev in st.events if ev[0] == 'ext' and ev[1].endswith('.Handle')]
         findings = []
 
@@ -75,6 +76,11 @@ def main():
                 metrics_reg = unw(h.args[0])
                 okm = callee(mmux) == 'http.NewServeMux'
         ob('the metrics address serves a plain mux whose /metrics is promhttp.HandlerFor(registry) (nothing shared with the prover server in front of it)', okm)
+        # --- a response that the handler wrote is a response the client receives: no read/write deadline can cut a long proof off
+        dl = deadlines.get('localhost:3001', {})
+        nodl = all(z3.is_bv_value(v) and v.as_long() == 0 for v in dl.values()) and bool(dl)
+        ob('the prover server sets no read/write deadline (a proof that outlasts it would be counted as sent while the connection is closed on the client)', nodl, info={k: str(v) for k, v in dl.items()})
+        slow_needed = not nodl
         # --- prover server handler is the instrumented mux itself
         pm = unw(ph)
         okp = isinstance(pm, Ptr) and 'serveMuxWithMetrics' in str(prog['types'][ph.t]['str']) if isinstance(ph, Iface) else False
@@ -147,7 +153,7 @@ def main():
         run.samples = [{'handler_chain': chain, 'servers': {k: str(v)[:80] for k, v in servers.items()}}]
         run.extra['handler_chain'] = chain
         if findings or any(o['verdict'] != o['expect'] for o in run.obls):
-            scen = 'concurrent' if not okm else ('slow' if not okp else 'mix')
+            scen = 'concurrent' if not okm else ('slow' if (not okp or slow_needed) else 'mix')
             try:
                 failed, panicked, out = driver.replay_native('server', 'server', ['c20_native.go'], 'VerifHarness_C20_Native', {'str:scenario': scen}, timeout=1500)
             except Exception as x:  # noqa
